@@ -11,11 +11,16 @@ import (
 	"math/big"
 	"os"
 	"os/exec"
+	"strconv"
 	"strings"
 	"time"
 )
 
+var slowMs = func() int { n, _ := strconv.Atoi(os.Getenv("SYMGO_SLOW")); return n }()
+
 type Solver struct {
+	ctx      string
+
 	tb       *TB
 	cmd      *exec.Cmd
 	in       *bufio.Writer
@@ -62,16 +67,20 @@ func newSolver(tb *TB, kind string, timeoutMs int, transcript string) *Solver {
 			s.log = bufio.NewWriterSize(f, 1<<16)
 		}
 	}
+	s.preamble()
+	return s
+}
+
+func (s *Solver) preamble() {
 	s.send("(set-option :produce-models true)")
 	s.send("(set-logic QF_UFBV)")
-	if timeoutMs > 0 {
-		if kind == "cvc5" {
-			s.send(fmt.Sprintf("(set-option :tlimit-per %d)", timeoutMs))
+	if s.timeoutMs > 0 {
+		if s.kind == "cvc5" {
+			s.send(fmt.Sprintf("(set-option :tlimit-per %d)", s.timeoutMs))
 		} else {
-			s.send(fmt.Sprintf("(set-option :timeout %d)", timeoutMs))
+			s.send(fmt.Sprintf("(set-option :timeout %d)", s.timeoutMs))
 		}
 	}
-	return s
 }
 
 func (s *Solver) send(line string) {
@@ -94,52 +103,6 @@ func (s *Solver) close() {
 	}
 }
 
-// ensure emits declarations/definitions for everything t depends on.
-func (s *Solver) ensure(t *Term) {
-	for ; s.ufsSent < len(s.tb.ufseq); s.ufsSent++ {
-		d := s.tb.ufseq[s.ufsSent]
-		var as []string
-		for _, w := range d.args {
-			as = append(as, sortOf(w))
-		}
-		s.send(fmt.Sprintf("(declare-fun %s (%s) %s)", d.name, strings.Join(as, " "), sortOf(d.ret)))
-	}
-	if s.defined[t.id] {
-		return
-	}
-	// iterative post-order
-	type fr struct {
-		t *Term
-		i int
-	}
-	st := []fr{{t, 0}}
-	for len(st) > 0 {
-		f := &st[len(st)-1]
-		if s.defined[f.t.id] {
-			st = st[:len(st)-1]
-			continue
-		}
-		if f.i < len(f.t.args) {
-			a := f.t.args[f.i]
-			f.i++
-			if !s.defined[a.id] {
-				st = append(st, fr{a, 0})
-			}
-			continue
-		}
-		x := f.t
-		switch x.op {
-		case "const":
-		case "sym":
-			s.send(fmt.Sprintf("(declare-const %s %s)", x.name, sortOf(x.w)))
-		default:
-			s.send(fmt.Sprintf("(define-fun t%d () %s %s)", x.id, sortOf(x.w), x.body()))
-		}
-		s.defined[x.id] = true
-		st = st[:len(st)-1]
-	}
-}
-
 func (s *Solver) readLine() string {
 	line, err := s.out.ReadString('\n')
 	if err != nil {
@@ -148,26 +111,128 @@ func (s *Solver) readLine() string {
 	return strings.TrimSpace(line)
 }
 
-// check decides satisfiability of the conjunction of pc and extra. If want is non-empty and the
-// answer is sat, the values of those terms are returned.
+// cone collects the sub-DAG below roots, grouped by depth (leaves excluded), plus the symbols used.
+func cone(roots []*Term) (levels [][]*Term, syms []*Term) {
+	depth := map[int]int{}
+	seen := map[int]bool{}
+	type fr struct {
+		t *Term
+		i int
+	}
+	for _, r := range roots {
+		if seen[r.id] {
+			continue
+		}
+		st := []fr{{r, 0}}
+		for len(st) > 0 {
+			f := &st[len(st)-1]
+			if seen[f.t.id] {
+				st = st[:len(st)-1]
+				continue
+			}
+			if f.i < len(f.t.args) {
+				a := f.t.args[f.i]
+				f.i++
+				if !seen[a.id] {
+					st = append(st, fr{a, 0})
+				}
+				continue
+			}
+			x := f.t
+			seen[x.id] = true
+			switch x.op {
+			case "const":
+			case "sym":
+				syms = append(syms, x)
+			default:
+				d := 0
+				for _, a := range x.args {
+					if depth[a.id] > d {
+						d = depth[a.id]
+					}
+				}
+				d++
+				depth[x.id] = d
+				for len(levels) < d {
+					levels = append(levels, nil)
+				}
+				levels[d-1] = append(levels[d-1], x)
+			}
+			st = st[:len(st)-1]
+		}
+	}
+	return
+}
+
+// check decides satisfiability of the conjunction of pc and extra (one-shot: the solver is reset and
+// receives only the cone of influence of this query, as one assertion with let-bound shared
+// sub-terms). If want is non-empty and the answer is sat, the values of those terms are returned.
 func (s *Solver) check(pc []*Term, extra *Term, want []*Term) (string, []*big.Int) {
 	t0 := time.Now()
+	roots := append([]*Term{}, pc...)
+	if extra != nil {
+		roots = append(roots, extra)
+	}
+	roots = append(roots, want...)
+	levels, syms := cone(roots)
+	s.send("(reset)")
+	s.preamble()
+	for _, d := range s.tb.ufseq {
+		var as []string
+		for _, w := range d.args {
+			as = append(as, sortOf(w))
+		}
+		s.send(fmt.Sprintf("(declare-fun %s (%s) %s)", d.name, strings.Join(as, " "), sortOf(d.ret)))
+	}
+	for _, x := range syms {
+		s.send(fmt.Sprintf("(declare-const %s %s)", x.name, sortOf(x.w)))
+	}
+	// wanted non-symbol terms get a fresh constant equated with them
+	wantRef := make([]string, len(want))
+	var eqs []string
+	for i, w := range want {
+		switch w.op {
+		case "sym":
+			wantRef[i] = w.name
+		case "const":
+			wantRef[i] = ""
+		default:
+			n := fmt.Sprintf("want!%d", i)
+			s.send(fmt.Sprintf("(declare-const %s %s)", n, sortOf(w.w)))
+			wantRef[i] = n
+			eqs = append(eqs, "(= "+n+" "+w.ref()+")")
+		}
+	}
+	var sb strings.Builder
+	sb.WriteString("(assert ")
+	for _, lv := range levels {
+		sb.WriteString("(let (")
+		for _, x := range lv {
+			sb.WriteString("(")
+			sb.WriteString(x.ref())
+			sb.WriteString(" ")
+			sb.WriteString(x.body())
+			sb.WriteString(")")
+		}
+		sb.WriteString(")\n")
+	}
+	sb.WriteString("(and true")
 	for _, p := range pc {
-		s.ensure(p)
+		sb.WriteString(" ")
+		sb.WriteString(p.ref())
 	}
 	if extra != nil {
-		s.ensure(extra)
+		sb.WriteString(" ")
+		sb.WriteString(extra.ref())
 	}
-	for _, w := range want {
-		s.ensure(w)
+	for _, q := range eqs {
+		sb.WriteString(" ")
+		sb.WriteString(q)
 	}
-	s.send("(push 1)")
-	for _, p := range pc {
-		s.send("(assert " + p.ref() + ")")
-	}
-	if extra != nil {
-		s.send("(assert " + extra.ref() + ")")
-	}
+	sb.WriteString(")")
+	sb.WriteString(strings.Repeat(")", len(levels)))
+	sb.WriteString(")")
+	s.send(sb.String())
 	s.send("(check-sat)")
 	s.in.Flush()
 	res := s.readLine()
@@ -176,11 +241,20 @@ func (s *Solver) check(pc []*Term, extra *Term, want []*Term) (string, []*big.In
 	}
 	var vals []*big.Int
 	if res == "sat" && len(want) > 0 {
-		vals = s.getValues(want)
+		vals = s.getValues(want, wantRef)
 	}
-	s.send("(pop 1)")
 	s.queries++
 	s.dur += time.Since(t0)
+	if slowMs > 0 && time.Since(t0) > time.Duration(slowMs)*time.Millisecond {
+		ex := ""
+		if extra != nil {
+			ex = extra.String()
+			if len(ex) > 300 {
+				ex = ex[:300]
+			}
+		}
+		fmt.Fprintf(os.Stderr, "SLOW q=%d %.2fs %s pc=%d ctx=%s extra=%s\n", s.queries, time.Since(t0).Seconds(), res, len(pc), s.ctx, ex)
+	}
 	switch res {
 	case "sat":
 		s.nsat++
@@ -195,8 +269,22 @@ func (s *Solver) check(pc []*Term, extra *Term, want []*Term) (string, []*big.In
 	return res, vals
 }
 
-func (s *Solver) getValues(want []*Term) []*big.Int {
+func (s *Solver) getValues(want []*Term, wantRef []string) []*big.Int {
 	vals := make([]*big.Int, len(want))
+	// constants need no query; map the remaining ones
+	var idx []int
+	for i, w := range want {
+		if w.op == "const" {
+			vals[i] = w.c
+		} else {
+			idx = append(idx, i)
+		}
+	}
+	return s.getValues2(vals, idx, wantRef)
+}
+
+func (s *Solver) getValues2(vals []*big.Int, idx []int, wantRef []string) []*big.Int {
+	want := idx
 	const chunk = 200
 	for base := 0; base < len(want); base += chunk {
 		end := base + chunk
@@ -206,7 +294,7 @@ func (s *Solver) getValues(want []*Term) []*big.Int {
 		var sb strings.Builder
 		sb.WriteString("(get-value (")
 		for _, w := range want[base:end] {
-			sb.WriteString(w.ref())
+			sb.WriteString(wantRef[w])
 			sb.WriteByte(' ')
 		}
 		sb.WriteString("))")
@@ -243,7 +331,7 @@ func (s *Solver) getValues(want []*Term) []*big.Int {
 			i = skipSexp(toks, i)
 			// value
 			j := skipSexp(toks, i)
-			vals[k] = parseVal(toks[i:j])
+			vals[want[k]] = parseVal(toks[i:j])
 			i = j
 			if toks[i] != ")" {
 				panic(engineErr{"get-value parse2: " + r})
